@@ -642,6 +642,13 @@ def _zip(interp, args, kwargs, node):
     if all(all(s[0] == "one" for s in l) for l in lists):
         n = min(len(l) for l in lists) if lists else 0
         return interp.new_list([TupleV(tuple(l[i][1] for l in lists)) for i in range(n)])
+    # sequences that enumerate one and the same family in step (a collection and a list built from it element by
+    # element): the i-th tuple holds the values all of them have for the i-th element
+    if lists and all(len(l) == 1 and l[0][0] == "each" for l in lists) and len({(l[0][2], l[0][3]) for l in lists}) == 1 \
+            and not any(getattr(interp.deref(a), "sorted_by", None) for a in args if isinstance(a, Ref)):
+        b0 = lists[0][0][1]
+        items = [lists[0][0][4]] + [interp.inst(l[0][4], {l[0][1]: b0}) for l in lists[1:]]
+        return interp.alloc(HList([("each", b0, lists[0][0][2], lists[0][0][3], TupleV(tuple(items)))]))
     b = interp.fresh_var("z")
     return interp.alloc(HList([("each", b, ("members", ("zip",) + tuple(desc(a) for a in args)), PTRUE, ElemV(b, "plain"))]))
 
@@ -1389,6 +1396,8 @@ def list_method(interp, ref, o: HList, name, args, kwargs, node):
     if name == "sort":
         interp.log("list.sort", node, obj=ref, kwargs=dict(kwargs))
         return Const(None)
+    if name == "isdisjoint":
+        return _isdisjoint(interp, ref, args[0], node)
     if name in ("issubset", "issuperset"):
         a = interp.as_coll(ref)
         b = interp.as_coll(args[0]) if not isinstance(args[0], ElemV) else args[0]
@@ -1719,11 +1728,28 @@ def unpack_value(interp, v, n, node):
     return None
 
 
+def _isdisjoint(interp, a, b, node):
+    """a.isdisjoint(b): no element of a occurs in b (the same predicate `not any(x in b for x in a)` yields)."""
+    ps = []
+    for sg in interp.segments(a, node):
+        if sg[0] == "one":
+            ps.append(interp.contains(b, sg[1], node))
+        elif sg[0] == "each":
+            ps.append(("exists", sg[1], sg[2], sg[3], interp.contains(b, sg[4], node)))
+        else:
+            x = interp.fresh_var("x")
+            ps.append(("exists", x, ("members", sg[1]), PTRUE, interp.contains(b, ElemV(x, "plain"), node)))
+    p = pred_not(pred_or(ps))
+    return Const(p[1]) if p[0] == "const" else PredV(p)
+
+
 def elem_method(interp, v: ElemV, name, args, kwargs, node):
     h = interp.method_hooks.get((v.role, name))
     if h is not None:
         return h(interp, v, args, kwargs, node)
     if v.role in ("set", "coll", "layer"):
+        if name == "isdisjoint":
+            return _isdisjoint(interp, v, args[0], node)
         if name in ("issubset", "issuperset"):
             b = interp.as_coll(args[0]) if not isinstance(args[0], ElemV) else args[0]
             y = b.var if b is not None else desc(args[0])
